@@ -180,6 +180,7 @@ pub struct Engine<'a> {
     pub op_index: usize,
     pub matrix_variant: Option<usize>,
     pub witness_on: bool,
+    pub dense: bool,
     pub force_witness: bool,
     pub events: BTreeMap<String, u64>,
     /// C16 image mode: when set, every quiescent point (`check_committed`) hands the directory and
@@ -219,6 +220,7 @@ impl<'a> Engine<'a> {
             op_index: 0,
             matrix_variant: None,
             witness_on: false,
+            dense: false,
             force_witness: false,
             events: BTreeMap::new(),
             image_sink: None,
@@ -313,6 +315,11 @@ impl<'a> Engine<'a> {
     }
 
     fn gen_key(&mut self) -> Key {
+        if self.dense && !self.pool.is_empty() && self.rng.chance(9, 10) {
+            // dense mode: a tiny key universe, so that successive batches / overlays keep touching
+            // neighbouring keys under the same terminals and elided sub-tries
+            return *self.rng.pick(&self.pool);
+        }
         match self.rng.below(5) {
             0 => self.rng.bytes32(),
             1 if !self.pool.is_empty() => {
@@ -1328,6 +1335,24 @@ pub fn run(seed: u64, cases: usize, out: &mut Sink, focus: &str, nops: usize, bi
         let start = out.ops.len();
         let n = r.range(nops / 2, nops);
         let mut e = Engine::new(r, out, cfg, dir, big);
+        if scale == 1 && case % 2 == 1 {
+            // dense universe: 14 keys in two clusters (some pairs diverging only near the end)
+            e.dense = true;
+            let mut u: Vec<Key> = Vec::new();
+            for c in 0..2 {
+                let base = e.rng.bytes32();
+                let d = if c == 0 { e.rng.range(2, 12) } else { interesting_depth(&mut e.rng) };
+                for _ in 0..5 {
+                    u.push(with_prefix(&mut e.rng, &base, d));
+                }
+                let dd = e.rng.range(200, 255);
+                let last = u[u.len() - 1];
+                let deep = diverge_at(&mut e.rng, &last, dd);
+                u.push(deep);
+                u.push(base);
+            }
+            e.pool = u;
+        }
         if scale > 1 {
             e.scale = scale;
             let extra = gen_keyset(&mut e.rng, 40 * scale);
